@@ -108,14 +108,18 @@ def run_exchanges(ctx, groups, per_design=40, name="gen-x"):
     """Like httpcheck.run_family for several groups of vectors at once (each group gets designs of its own), with raw
     scenarios for the vectors marked raw.  groups: [(tag, vectors)].  Returns (cases, pipeline); a case carries its tag."""
     designs, plan = [], []           # plan: (tag, vector, design index, service, Go method)
-    for tag, vectors in groups:
+    for g in groups:
+        tag, vectors = g[0], g[1]
+        together = len(g) > 2 and g[2].get("together")        # keep the group's methods in one design whatever their bodies
         shapes, index = [], {}
         for v in vectors:
             k = (hg.shape_key(v), v.get("flag") in RD)
             if k not in index:
                 index[k] = len(shapes)
                 shapes.append({"pa": v["pa"], "ra": v["ra"], "tagged": v.get("tagged", False), "rd": k[1]})
-        ds, where = hg.pack_designs([{x: sh[x] for x in ("pa", "ra", "tagged")} for sh in shapes], per_design)
+        # (no two methods of a design with structurally equal bodies and different validations: schema.dedup_ignores_validations
+        #  would make one stand in for the other; that finding is looked for on purpose, see checks/c14.py)
+        ds, where = hg.pack_designs([{x: sh[x] for x in ("pa", "ra", "tagged")} for sh in shapes], per_design, apart=None if together else hg.body_struct_keys)
         base = len(designs)
         for d in ds:
             d["api"]["name"] = "a%d" % (len(designs) + 1)
